@@ -280,8 +280,13 @@ def longRegex (st : State) (text : String) : Bool :=
   | .ok req =>
     let leaves := requestLeaves req
     leaves.any (fun l => l.rx.isSome && l.sval.length > 120) ||
-    -- a repetition matched against a very long text makes the derivative terms grow with the text
-    (leaves.any (fun l => l.rx.isSome) && st.ds.backends.any fun b => b.tables.any fun (_, rows) => rows.any fun r => r.cells.any fun (_, v) => valTooLong v)
+    -- a repetition matched against a very long text makes the derivative terms grow with the text: requests whose
+    -- regular expressions look at a column that holds such a text somewhere are outside the compared class
+    (let rxCols := (leaves.filter (fun l => l.rx.isSome)).flatMap fun l =>
+        let base := [l.col.name, l.col.refCol]
+        let base := base ++ base.map (fun n => if n.endsWith "_lc" then (n.dropEnd 3).toString else n)
+        if l.col.dtype == .customVar then base ++ ["custom_variable_values", "custom_variable_names"] else base
+     !rxCols.isEmpty && st.ds.backends.any fun b => b.tables.any fun (_, rows) => rows.any fun r => r.cells.any fun (k, v) => rxCols.contains k && valTooLong v)
   | .error _ => false
 
 def handleQuery (st : State) (j : Json) (dist : Option (List (List String) × List String) := none) : Json :=
